@@ -21,5 +21,6 @@ with cf.ThreadPoolExecutor(6) as ex:
         print("%s %-28s %s" % (p, os.path.basename(f), tag))
         if rc != 0:
             bad += 1
-            print("\n".join("    " + l[:260] for l in out.splitlines()[:12]))
+            keep = [l for l in out.splitlines() if "violations=0" not in l and "KNOWN-FINDING" not in l]
+            print("\n".join("    " + l[:300] for l in keep[:40]))
 print("refactorings: %d, not silent: %d" % (len(tasks), bad))
